@@ -249,6 +249,8 @@ pub struct Cfg {
     pub maxctl: Option<u16>,
     pub discard: bool,
     pub evmax: u16,
+    /// C01: decode level 0 = nothing .. 3 = object values (+ transport / link payload, physical data)
+    pub decode: u8,
 }
 
 impl Cfg {
@@ -256,7 +258,7 @@ impl Cfg {
         let mut c = Cfg {
             sol: 2048, unsol: 2048, rx: 2048, unsolicited: false, retries: None, ctimeout: 5000, stimeout: 5000,
             rdelay: 5000, keepalive: None, anymaster: false, broadcast: true, selfaddr: false, maxctl: None,
-            discard: false, evmax: 10,
+            discard: false, evmax: 10, decode: 0,
         };
         for w in ws {
             let (k, v) = w.split_once('=').unwrap();
@@ -276,6 +278,7 @@ impl Cfg {
                 "maxctl" => c.maxctl = if v == "none" { None } else { Some(v.parse().unwrap()) },
                 "discard" => c.discard = v == "1",
                 "evmax" => c.evmax = v.parse().unwrap(),
+                "decode" => c.decode = v.parse().unwrap(),
                 _ => panic!("bad cfg key {k}"),
             }
         }
@@ -296,7 +299,7 @@ impl Cfg {
         c.solicited_buffer_size = BufferSize::new(self.sol as usize).unwrap();
         c.unsolicited_buffer_size = BufferSize::new(self.unsol as usize).unwrap();
         c.rx_buffer_size = BufferSize::new(self.rx as usize).unwrap();
-        c.decode_level = dnp3::decode::DecodeLevel::nothing();
+        c.decode_level = decode_level(self.decode);
         c.confirm_timeout = Timeout::from_duration(Duration::from_millis(self.ctimeout)).unwrap();
         c.select_timeout = Timeout::from_duration(Duration::from_millis(self.stimeout)).unwrap();
         c.features.self_address = Self::feature(self.selfaddr);
@@ -309,6 +312,34 @@ impl Cfg {
         c.max_controls_per_request = self.maxctl;
         c
     }
+}
+
+/// C01: `decode=<n>` -> all four layers at the n-th level (0 = nothing)
+pub fn decode_level(n: u8) -> dnp3::decode::DecodeLevel {
+    use dnp3::decode::*;
+    let mut d = DecodeLevel::nothing();
+    d.application = match n {
+        0 => AppDecodeLevel::Nothing,
+        1 => AppDecodeLevel::Header,
+        2 => AppDecodeLevel::ObjectHeaders,
+        _ => AppDecodeLevel::ObjectValues,
+    };
+    d.transport = match n {
+        0 => TransportDecodeLevel::Nothing,
+        1 => TransportDecodeLevel::Header,
+        _ => TransportDecodeLevel::Payload,
+    };
+    d.link = match n {
+        0 => LinkDecodeLevel::Nothing,
+        1 => LinkDecodeLevel::Header,
+        _ => LinkDecodeLevel::Payload,
+    };
+    d.physical = match n {
+        0 => PhysDecodeLevel::Nothing,
+        1 => PhysDecodeLevel::Length,
+        _ => PhysDecodeLevel::Data,
+    };
+    d
 }
 
 pub struct Station {
